@@ -5,6 +5,7 @@ import (
 	"encoding/hex"
 	"encoding/json"
 	"fmt"
+	"github.com/MinterTeam/minter-go-node/coreV2/types"
 	"math/big"
 	"math/rand"
 	"sort"
@@ -249,6 +250,46 @@ func HotColdDiff(n *Node, s *Snap) (string, string) {
 			return "hot-candidate", fmt.Sprintf("candidate %d hot status %d total %s, cold status %d total %s", c.ID, hc.Status, hc.GetTotalBipStake(), c.Status, c.TotalBipStake)
 		}
 	}
+	for _, c := range s.Cands {
+		for _, st := range c.Stakes {
+			if got := cs.Candidates().GetStakeValueOfAddress(c.PubKey, st.Owner, coinID(st.Coin)); got == nil || got.String() != st.Value {
+				return "hot-stake", fmt.Sprintf("stake of %s at candidate %d coin %d: hot %v cold %s", st.Owner.String(), c.ID, st.Coin, got, st.Value)
+			}
+		}
+	}
+	for _, wl := range s.Raw.Waitlist {
+		var pk types.Pubkey
+		found := false
+		for _, c := range s.Cands {
+			if c.ID == wl.CandidateID {
+				pk, found = c.PubKey, true
+			}
+		}
+		if !found {
+			continue
+		}
+		it := cs.WaitList().Get(wl.Owner, pk, coinID(wl.Coin))
+		if it == nil || it.Value == nil || it.Value.String() != wl.Value {
+			got := "nothing"
+			if it != nil && it.Value != nil {
+				got = it.Value.String()
+			}
+			return "hot-waitlist", fmt.Sprintf("waitlist entry of %s at candidate %d coin %d: hot %s cold %s", wl.Owner.String(), wl.CandidateID, wl.Coin, got, wl.Value)
+		}
+	}
+	for _, id := range s.CoinIDs {
+		c := s.Coins[id]
+		if c.Version != 0 {
+			continue
+		}
+		hc := cs.Coins().GetCoin(coinID(id))
+		if hc == nil {
+			return "hot-coin", fmt.Sprintf("coin %d missing in live state", id)
+		}
+		if hc.Volume().String() != c.Volume || (c.Crr > 0 && hc.Reserve().String() != c.Reserve) {
+			return "hot-coin", fmt.Sprintf("coin %d hot volume %s reserve %s, cold volume %s reserve %s", id, hc.Volume(), hc.Reserve(), c.Volume, c.Reserve)
+		}
+	}
 	for _, p := range s.Pools {
 		r0, r1 := cs.Swap().GetSwapper(coinID(p.Coin0), coinID(p.Coin1)).Reserves()
 		if r0.String() != p.Reserve0 || r1.String() != p.Reserve1 {
@@ -261,12 +302,12 @@ func HotColdDiff(n *Node, s *Snap) (string, string) {
 // MonC09: a subject twin with restarts must behave exactly like the never-restarted main node.
 type MonC09 struct {
 	NopMonitor
-	sub      *Twin
-	restarts int
+	sub          *Twin
+	restarts     int
 	lastRestartH int64
-	classes  map[string]bool
-	heights  []uint64
-	dead     bool
+	classes      map[string]bool
+	heights      []uint64
+	dead         bool
 }
 
 func (m *MonC09) Genesis(w *World) {
@@ -608,4 +649,20 @@ func c09class(w *World, class string) string {
 		return "initial-height-1:" + class
 	}
 	return class
+}
+
+// MonHotCold: after every commit the live read interface (the state object block execution and the API
+// share) must show exactly what was committed: anything else is state that exists only in memory and
+// would be gone - or different - after a restart.
+type MonHotCold struct{ NopMonitor }
+
+func (MonHotCold) AfterBlock(w *World, b *BlockCtx) {
+	if b.Cur == nil || w.Viol != nil || w.Node == nil || w.Node.Dead {
+		return
+	}
+	if cls, d := HotColdDiff(w.Node, b.Cur); cls != "" {
+		w.Report("C09", "restart-equivalence", c09class(w, cls), fmt.Sprintf("height %d, no restart at all: the running node's live state differs from what it committed: %s", b.Height, d), b.Height)
+		return
+	}
+	w.Probe("hot_cold_compared")
 }
